@@ -11,7 +11,10 @@ META = {
                    "validation error exactly when Config(**d) does, otherwise `configuration` equals Config(**d) field "
                    "by field and is an instance of the same class; the instance state after Cls() + "
                    "set_config_parameters(d) equals the state after Cls(Config(**d)). A second family varies list "
-                   "lengths (0..3) concretely.",
+                   "lengths (0..3) concretely. Refutation-only family `reconfigure`: private numeric / None fields are havocked "
+                   "(an earlier run under another configuration), set_config_parameters(d) + the per-run initialisation "
+                   "run on the dirty and on a clean instance; a surviving field is a candidate, reported only if the API "
+                   "replay (run; set_config_parameters(d1); run - versus Cls(Config(**d1)), several d1) differs.",
     "bounds": {"quick": "84 classes; ints in [v-3, v+3]; floats symbolic; list lengths 0..3",
                "thorough": "same with ints in [v-6, v+6]"},
     "outside": "pydantic's strict type errors (well-typed dictionaries only); that equal instance state implies equal "
@@ -159,6 +162,105 @@ def ob_list_lengths(cname):
     return f
 
 
+def config_variants(C, kw, limit=8):
+    """valid configurations that differ from kw in one numeric field"""
+    out = []
+    for k, v in kw.items():
+        if isinstance(v, bool) or k in ("max_cycles", "fitness_error"):
+            continue
+        cands = []
+        if isinstance(v, int):
+            cands = [v + 1, v - 1, v * 2, v + 3]
+        elif isinstance(v, float):
+            cands = [v * 0.5, v * 1.5, v + 0.3, 0.7, 0.1]
+        for c in cands:
+            d = dict(kw, **{k: c})
+            try:
+                C(**d)
+            except Exception:
+                continue
+            if c != v:
+                out.append(d)
+                break
+    return out[:limit]
+
+
+def api_reconfigure(cls):
+    """run, re-configure with set_config_parameters(d1), run again - versus a run of Cls(Config(**d1)) (real code,
+    identical seeds); first differing variant is reported"""
+    import random
+    from .C08 import _task, _result_sig
+    C, kw = config_class(cls), test_config(cls)
+
+    def run(o):
+        random.seed(11)
+        return _result_sig(o.optimize(_task()))
+    for d1 in config_variants(C, kw):
+        try:
+            fresh = run(cls(C(**d1)))
+            if run(cls(C(**d1))) != fresh:
+                continue          # not deterministic under identical seeds
+            for first in (lambda: cls(C(**kw)), lambda: _configured(cls, kw)):
+                o = first()
+                run(o)
+                o.set_config_parameters(dict(d1))
+                if run(o) != fresh:
+                    return {k: (kw[k], d1[k]) for k in kw if kw[k] != d1[k]}
+        except Exception:
+            continue
+    return None
+
+
+def _configured(cls, kw):
+    o = cls()
+    o.set_config_parameters(dict(kw))
+    return o
+
+
+def ob_reconfigure(cname):
+    """arbitrary-pre-state pattern for 'a run after set_config_parameters(d) is identical to a run of an optimizer
+    constructed with that configuration', also when the instance has been used before: private numeric / not-yet-
+    computed (None) fields hold arbitrary values, then set_config_parameters(d) and the per-run initialisation path run
+    on this instance and on a clean one; a field that ends different is a candidate, decided by the API replay."""
+    cls = optimizer_classes()[cname]
+
+    def f():
+        from .C08 import _task, _base_fields, _same
+        if sym.MODE == "replay":
+            changed = api_reconfigure(cls)
+            if changed is not None:
+                return Failure("run-after-set_config_parameters-differs-from-an-optimizer-constructed-with-that-"
+                               "configuration", cls=cname, reconfigured=changed)
+            return OK
+        with env(rng_deny=False):
+            kw = test_config(cls)
+            clean, dirty = cls(), cls()
+            base = _base_fields()
+            marks = {}
+            for k in [k for k in vars(dirty) if k not in base]:
+                v = getattr(dirty, k)
+                if v is None or (isinstance(v, float) and not isinstance(v, bool)):
+                    marks[k] = sym.real(k)
+                elif isinstance(v, int) and not isinstance(v, bool):
+                    marks[k] = sym.integer(k, -5, 5)
+                else:
+                    continue
+                setattr(dirty, k, marks[k])
+            for o in (clean, dirty):
+                o.set_config_parameters(dict(kw))
+                np.random.seed(1)
+                o._task = _task()
+                o.before_initialization()
+                o._init_population()
+                o.after_initialization()
+            bad = [k for k in marks if not _same(getattr(clean, k), getattr(dirty, k))]
+            if bad:
+                return Failure("private-field-survives-set_config_parameters-and-the-per-run-initialisation",
+                               cls=cname, fields=bad)
+            return OK
+    return f
+
+
 def twin():
     def f():
         with env():
@@ -180,5 +282,6 @@ def obligations(tier):
         obs.append(Ob(f"construct[{cname}]", ob_construct(cname), 60))
         obs.append(Ob(f"params[{cname}]", ob_params(cname, 6 if th else 3), 300))
         obs.append(Ob(f"shapes[{cname}]", ob_list_lengths(cname), 120))
+        obs.append(Ob(f"reconfigure[{cname}]", ob_reconfigure(cname), 60, refutation_only=True, api_replay_decides=True))
     obs.append(Ob("twin_vacuity", twin(), 60, expect_refuted=True))
     return obs
